@@ -10,6 +10,22 @@ CHECKS = {
    technique="deterministic simulation: real pipeline models driven under a simulated thread pool whose start/finish/yield decisions come from a seeded, replayable scheduler; list-model oracle over the recorded stage trace",
    text="Seeded search over thread-pool schedules (start/finish interleavings under the worker limit, order of already-finished futures), injected branch failures and add/remove histories, on the real ParallelModel/Sequential/Branching/Feedback/MAC/Wyner-Ziv code with recording stub stages. A clean batch is evidence over the sampled schedules, not a proof; for <=4 branches every yield permutation is in practice reached (measured in the evidence).",
    note="Trusted: the simulated executor's fidelity to ThreadPoolExecutor/as_completed semantics, CPython Future, atomic branch bodies (no pre-emption inside a stage), the list-model oracle."),
+ "C16": dict(engine="histsim", design="§5.1",
+   technique="deterministic simulation: seeded delivery layer (fragmenting, coalescing, reordering, interleaved compute/reset) in front of one long-lived metric object, checked operation by operation against a two-integer reference model",
+   text="Seeded search over update/compute/reset histories and batch partitions of a data stream on the real BitErrorRate/BlockErrorRate objects (all aliases and registry names) with a reference counter; one-shot clauses (exact fraction, symmetry, zero-iff-equal, BER<=BLER<=min(1,B*BER), helper agreement, non-divisor rejection) are per-step checks in the same runs. Evidence over sampled histories, not a proof.",
+   note="Trusted: the reference counter (two Python integers), float32 tolerance 2e-6 relative; nothing asserted about an object after a rejected call or about forward() touching accumulators."),
+ "C12": dict(engine="rngsim", design="§6.2",
+   technique="deterministic simulation of the channel's fault process: simulator-owned random source (torch.manual_seed per run, replayable realisation); exact support invariants on every sample, exact-binomial tests on rates, symmetry and disjoint-pair independence with a 1e-9 per-run false-alarm bound",
+   text="Seeded realisations of BSC/BEC/Z over probabilities, alphabets, dtypes and shapes; support invariants are exact on every sample, distributional clauses are decided up to the stated error probability and the resolution ~1e6 symbols allow.",
+   note="Trusted: torch's generator is the only random source; exact binomial tails from scipy; per-test level 5e-15."),
+ "C07": dict(engine="rngsim", design="§6.1",
+   technique="deterministic simulation: simulator-owned random source and injected noise; same-seed scaling relations between two replayed runs (exact), verbatim-noise identity (exact), agreement of the library's SNR tools with the definition (exact), and z-tests with analytic variances for mean/power/SNR (1e-9 per-run false-alarm bound)",
+   text="Seeded realisations of AWGN, Laplacian, nonlinear-with-noise, the noise stage of flat fading (csi supplied) and add_noise_for_snr over real/complex inputs, six decades of signal power, SNR -20..40 dB. Exact relations hold on every realisation; power/SNR are decided up to the stated error probability at N~1e6 (a 0.5 % power error is invisible, a 3 dB or dB/20 error is not).",
+   note="Trusted: torch's generator is the only random source; the draw count does not depend on the configured power (else the scaling relation is recorded not-applicable); analytic fourth moments of Gaussian/Laplace laws."),
+ "C13": dict(engine="rngsim", design="§6.3",
+   technique="deterministic simulation: simulator-owned random source of the fading process plus injected csi/noise; exact y=h*x+n identity, exact block-constancy with injected zero noise, and moment/correlation tests with analytic variances (1e-9 per-run false-alarm bound)",
+   text="Seeded realisations of Rayleigh/Rician/log-normal flat fading (generic and convenience classes) over coherence times incl. non-divisors, real/complex, 1-D..4-D shapes. Structure is exact on every case; E|h|^2, K-factor, independence across blocks/items and noise calibration against the faded signal are decided up to the stated error probability at ~1e6 blocks.",
+   note="Trusted: torch's generator is the only random source; csi/noise supplied in the channel's (batch, flattened sequence) layout; no normalisation asserted for log-normal."),
 }
 
 NOT_APPLICABLE = {
